@@ -1,6 +1,7 @@
 """C04 — well-formed in, well-formed out: the anchored mechanisms, decided per unit."""
 from mirsym import models_typst as T
 from . import lists, flows, mathargs, imports
+from .common import validate_corpus
 
 EXPLANATION = (
     "Bounded symbolic execution (MIR->SMT, z3) of the mechanisms the property is anchored in; the oracle 'output re-parses without "
@@ -33,6 +34,9 @@ def run(S):
     mathargs.report(S, 'C04', fm)
     fi = imports.explore(S, want=('C04',))
     imports.report(S, 'C04', fi)
+    validate_corpus(S, 'lists', [l for l, _ in found if l.startswith('C04:')], lambda: lists.native_sweep(S, 'C04', all_hits=True))
+    validate_corpus(S, 'mathargs', [l for l, _ in fm if l.startswith('C04:')], lambda: mathargs.native_sweep(S, 'C04'))
+    validate_corpus(S, 'imports', [l for l, _ in fi if l.startswith('C04:')], lambda: imports.native_sweep(S, 'C04'))
     allw = set()
     for o in S.obls:
         allw |= set(o.witnesses)
